@@ -32,7 +32,16 @@ var (
 type xmpReader struct {
 	r *bufio.Reader
 	a bool
+	// depth of start tags being read (readTag calls itself for every nested start tag)
+	depth int
 }
+
+// maxTagDepth limits how deep start tags may nest. XMP packets nest a handful of
+// levels; every level costs a stack frame, and a stack overflow cannot be recovered.
+const maxTagDepth = 256
+
+// ErrTagDepth is returned for a packet whose tags nest deeper than maxTagDepth.
+var ErrTagDepth = errors.New("xmp: error tags nested too deep")
 
 func newXMPReader(r io.Reader) xmpReader {
 	br, ok := r.(*bufio.Reader)
@@ -305,6 +314,11 @@ func (br *xmpReader) readTagValue() (buf []byte, err error) {
 }
 
 func (br *xmpReader) readTag(xmp *XMP, parent Tag) (tag Tag, err error) {
+	if br.depth >= maxTagDepth {
+		return tag, ErrTagDepth
+	}
+	br.depth++
+	defer func() { br.depth-- }()
 	for {
 		if tag, err = br.readTagHeader(parent); err != nil {
 			break
